@@ -55,6 +55,12 @@ CHECKS = {
         note="NOT CLAIMED: that the concrete execution with the printed values really ends in the reported failure (composition of C01 and C11, out of reach of per-function contracts). Trusted: pyvc, z3. Assumed: exactness of refinement is the C11 proof; string functions are checked on listed families, and as a bounded stand-in on the model text printed by the installed z3 4.8 / z3 5.1 / cvc5 / yices binaries.",
         technique="contracts on the real functions with callee contracts, VCs from the AST (pyvc); listed string families; bounded stand-in on real solver output",
     ),
+    "C20": dict(
+        text="Deductive ownership/frame contracts: every field of Exec (introspected on each run; an unclassified field is an obligation failure) is classified as `own copy` or `shared on purpose, with the reason`; SEVM.create_branch (sibling paths) and SEVM.run_message (the state of a new transaction/test derived from the post-setUp or frontier state) are executed from the AST on a representative rich state and every own-copy field is proved distinct to the depth it needs, the copies start equal, later writes of the derived state (storage, counters, aliases, keys, signatures, stack, trace, loop counts) are invisible to the original, and the starting state is not modified; Path.branch / Path.extend_path ownership (shared with C02/C11); __main__.run_message gives every (state, test) pair a solver and a Path of its own and resets the solver also on exceptions; run_tests gives every test its own FunctionContext from the contract's configuration and the same setUp state and isolates exceptions; State/Contract/ByteVec/KeccakRegistry copies used at fork points. A genuine defect (sibling paths shared the key/signature tables) was found, replayed and repaired.",
+        ref="DESIGN.md 4/C20 and 12",
+        note="NOT CLAIMED: that verdicts are independent of the random uid() suffixes (a 2-safety property over two runs) and equal across run orders (a whole-history property) - per-function contracts cannot decide them. Trusted: pyvc, z3, copy.deepcopy. Assumed: a representative rich state; the whitelist of intentionally shared components (balance term, Contract, callback, call_sequence, the solver object under the push/pop discipline, term_to_vars memo); process-wide singletons are not symbolic-execution state.",
+        technique="ownership/frame contracts: real AST of the fork points executed by pyvc on a representative rich state, every Exec field classified by introspection, identity-level obligations and frame tests; callee contracts for the per-test loop",
+    ),
     "C19": dict(
         text="Deductive: insn_len against N(0,w) on the full opcode domain; Contract.__get_jumpdests against the Yellow-Paper D_J by a loop invariant (arbitrary code length and contents, concrete prefix / symbolic bytes, PUSH data straddling the fast-path boundary), with a variant for termination; valid_jumpdests caching; decode past the end = STOP. the jump-destination checks of sevm.py (JUMP arm, concrete JUMPI arm, SEVM.jumpi for every solver answer) against an arbitrary destination set: execution continues at a target only if it is valid, a genuine JUMPDEST is never rejected, an invalid one ends that direction with InvalidJumpDestError. PUSH operand extraction, slices and byte reads are a bounded stand-in (exhaustive short codes natively against specs/dj.py) reported separately and never counted as proved.",
         ref="DESIGN.md 4/C19",
